@@ -28,6 +28,14 @@ def programs(tier):
     for form in ("gt", "ge"):
         for fmt, p, k in (("B", 19, 19), ("H", 31, 32), ("<I", 60, 63)):
             out.append((f"read {fmt} @{p} guard>{k} ({form})", "read:" + form, fmt, p, k))
+    # one packet variable assigned to another (no arithmetic in between):
+    # narrowing, equal and widening widths, same and mixed byte orders
+    pairs = [("H", "I"), ("I", "Q"), ("B", "H"), ("I", "I"), ("Q", "I"), ("h", "i"), ("i", "q")]
+    for order in ORDERS:
+        for d, src in pairs:
+            out.append((f"copy {order}{d} @14 <- {order}{src} @24 guard>40", f"copy:{order}{src}", order + d, 14, 40))
+    for d, src in ((">H", "<I"), ("<H", ">I"), ("!I", "Q"), ("H", "!Q")):
+        out.append((f"copy {d} @14 <- {src} @24 guard>40", f"copy:{src}", d, 14, 40))
     return out
 
 
@@ -36,6 +44,18 @@ def build(kind, fmt, p, k):
     from ebpfcat.xdp import XDP, PacketVar, XDPExitCode
 
     kind, _, form = kind.partition(":")
+    if kind == "copy":
+        class C(XDP):
+            minimumPacketSize = k
+            license = "GPL"
+            pv = PacketVar(p, fmt)
+            sv = PacketVar(24, form)
+            lv = LocalVar("q")
+
+            def program(self):
+                self.pv = self.sv
+                self.exit(XDPExitCode.TX)
+        return C().assemble(), C.lv.relative_addr
     if form:
         class G(XDP):
             license = "GPL"
